@@ -216,8 +216,11 @@ def documents(draw, max_subnets=4, max_size=3, max_hosts=7, extras=True,
             # after it is compromised it is an attacker position like any other)
             near = [b for b in addrs if topo[b[0]][a[0]] == 1] or addrs
             nsrc = draw(st.integers(1, min(3, len(near))))
-            for src in draw(st.lists(st.sampled_from(near), min_size=nsrc,
-                                     max_size=nsrc, unique=True)):
+            chosen = list(draw(st.lists(st.sampled_from(near), min_size=nsrc,
+                                        max_size=nsrc, unique=True)))
+            if a not in chosen and _coin(draw, 0.3):
+                chosen.append(a)            # the host denies a service to its own address
+            for src in chosen:
                 fw[src] = [s for s in srvs if _coin(draw, 0.6)]
             cfg["firewall"] = fw
         if _coin(draw, 0.4):
@@ -263,6 +266,31 @@ def documents(draw, max_subnets=4, max_size=3, max_hosts=7, extras=True,
                 if t not in seen and topo[s][t] == 1:
                     seen.add(t)
                     frontier.append((s, t))
+    if _coin(draw, 0.2) and len(srvs) >= 2:
+        # corner: a host that can be compromised through one service while a second
+        # exploitable service of it is reachable from NO position once it is the only foothold -
+        # the internet rule lacks it and the host denies it to its own address (and its subnet)
+        t = draw(st.sampled_from([a for a in addrs if topo[a[0]][0] == 1] or addrs))
+        ex = sorted(exploits)
+        ey, exx = ex[0], ex[-1]
+        if exploits[ey]["service"] == exploits[exx]["service"]:
+            exploits[exx]["service"] = [s_ for s_ in srvs if s_ != exploits[ey]["service"]][0]
+        y, x = exploits[ey]["service"], exploits[exx]["service"]
+        cfg = hostcfg[t]
+        for s_ in (x, y):
+            if s_ not in cfg["services"]:
+                cfg["services"].append(s_)
+        for e in (exploits[ey], exploits[exx]):
+            if str(e["os"]).lower() != "none":
+                e["os"] = cfg["os"]
+            if e["prob"] in (0, 0.0):
+                e["prob"] = 0.5
+        if (0, t[0]) in firewall:
+            firewall[(0, t[0])] = [s_ for s_ in set(firewall[(0, t[0])]) | {y} if s_ != x]
+        deny = cfg.setdefault("firewall", {})
+        for b in addrs:
+            if b[0] == t[0]:
+                deny[b] = sorted(set(deny.get(b, [])) | {x})
     if _coin(draw, 0.25):
         # the file may list the hosts in any order
         order = draw(st.permutations(addrs))
